@@ -5,27 +5,28 @@ from .report import Check
 from .model import TargetModel
 
 H = extract.HOST
+HR = H + "@release"          # host triple compiled without debug assertions / overflow checks
 A64L = "aarch64-unknown-linux-gnu"
 ARM = "armv7-unknown-linux-gnueabihf"
 
 TARGETS = {
     # property -> (quick targets, thorough targets)
-    "C01": ([H], [H, "x86_64-apple-darwin", "x86_64-pc-windows-msvc"]),
+    "C01": ([H, A64L, ARM, HR], list(extract.ALL_TARGETS) + [HR]),
     "C16": ([ARM], [ARM, "thumbv7neon-unknown-linux-gnueabihf"]),
-    "C13": ([H, A64L, ARM], list(extract.ALL_TARGETS)),
-    "C02": ([H, A64L, ARM], list(extract.ALL_TARGETS)),
-    "C03": ([H, A64L, ARM], list(extract.ALL_TARGETS)),
-    "C12": ([H, A64L], list(extract.ALL_TARGETS)),
-    "C17": ([H, A64L], list(extract.ALL_TARGETS)),
-    "C11": ([H, A64L], [t for t in extract.ALL_TARGETS if "arm" not in t.split("-")[0] and "thumb" not in t]),
-    "C04": ([H], list(extract.ALL_TARGETS)),
-    "C05": ([H, "x86_64-pc-windows-msvc"], list(extract.ALL_TARGETS)),
+    "C13": ([H, A64L, ARM, HR], list(extract.ALL_TARGETS) + [HR]),
+    "C02": ([H, A64L, ARM, HR], list(extract.ALL_TARGETS) + [HR]),
+    "C03": ([H, A64L, ARM, HR], list(extract.ALL_TARGETS) + [HR]),
+    "C12": ([H, A64L, HR], list(extract.ALL_TARGETS) + [HR]),
+    "C17": ([H, A64L, HR], list(extract.ALL_TARGETS) + [HR]),
+    "C11": ([H, A64L, HR], [t for t in extract.ALL_TARGETS if "arm" not in t.split("-")[0] and "thumb" not in t] + [HR]),
+    "C04": ([H, HR], list(extract.ALL_TARGETS) + [HR]),
+    "C05": ([H, "x86_64-pc-windows-msvc", HR], list(extract.ALL_TARGETS) + [HR]),
     "C06": ([H], [H]),
     "C07": ([H], [H]),
     "C08": ([H], [H]),
     "C09": ([H], [H]),
     "C14": ([H], [H, A64L, ARM]),
-    "C10": ([H, A64L, ARM], list(extract.ALL_TARGETS)),
+    "C10": ([H, A64L, ARM, HR], list(extract.ALL_TARGETS) + [HR]),
     "C15": ([A64L, "aarch64-apple-darwin"], [A64L, "aarch64-apple-darwin", "aarch64-pc-windows-msvc"]),
 }
 
